@@ -50,11 +50,11 @@ type Check struct {
 // Violation is one oracle failure.
 type Violation struct {
 	Property  string          `json:"property"`
-	Kind      string          `json:"kind"`      // what failed (oracle name)
-	Where     string          `json:"where"`     // classified location (sink, construct, entry point ...)
-	Trigger   string          `json:"trigger"`   // classified trigger (token class, value kind ...)
-	Detail    string          `json:"detail"`    // free text: expected vs got
-	Case      json.RawMessage `json:"case"`      // replayable case
+	Kind      string          `json:"kind"`    // what failed (oracle name)
+	Where     string          `json:"where"`   // classified location (sink, construct, entry point ...)
+	Trigger   string          `json:"trigger"` // classified trigger (token class, value kind ...)
+	Detail    string          `json:"detail"`  // free text: expected vs got
+	Case      json.RawMessage `json:"case"`    // replayable case
 	CaseKey   string          `json:"case_key"`
 	Signature string          `json:"signature"` // property/kind/where/trigger
 }
